@@ -104,6 +104,7 @@ func checkC12(c *Ctx) {
 	c12WindowOrdered(c)
 	c12ReplaceOneSection(c, ri, accs)
 	c12RegisterReplaces(c, ri, accs)
+	c12CountPaired(c)
 	// a registry mutex left locked on some exit (an early return inside an explicit Lock … Unlock) wedges the registry
 	{
 		var fns []*ssa.Function
